@@ -1,5 +1,6 @@
 import HbsModel.Props.C01c
 import HbsModel.Lemmas.WithValue
+import HbsModel.Lemmas.WithThis
 /-
   C01 (continued)  the positive counterpart at source level: inside `{{#with v}}` the path `x` reads the field `x` of `data.v`.
 -/
@@ -178,6 +179,169 @@ theorem path_in_with_reads_the_with_scope (r : Registry) (fs : FS) (L R : Str) (
   have := render_writes_templateK 9 r data none ets m { rootTemplate := none } hlen hw
   simp only [Tmpl.name] at this ⊢
   rw [this, htxt]
+
+
+
+/-! ### `this` inside `with` -/
+
+/-- the body `{{this}}` rendered in the scope the `with` helper pushed (held as the path `v`): the escaped text of `data.v` itself -/
+theorem render_this_body_in_with (reg : Registry) (root j : Json) (rc0 rcS : RC) (out : Out) (lc : Nat × Nat) (fuel : Nat)
+    (hb : rc0.blocks = [{ basePath := [['v']] }, {}])
+    (hi : rc0.indentString = none) (hct : rc0.currentTemplate = none) (hmc : rc0.modifiedCtx = none) (hde : rc0.disableEscape = false)
+    (hl : assocGet rc0.localHelpers ['t', 'h', 'i', 's'] = none) (hr : assocGet reg.helpers ['t', 'h', 'i', 's'] = none)
+    (hsafe : Spec.indexSafe root [['v']] = true) (hj : Spec.descend root [['v']] = some j)
+    (hq : Quiet rc0 rcS) (hf : out.failAt = none) :
+    ∃ rc2 out2, renderTemplate reg root (fuel + 6) (PlainText.wtBody lc) rcS out = .ok () rc2 out2
+      ∧ Quiet rc0 rc2 ∧ out2.failAt = none ∧ out2.text = out.text ++ reg.escape j.render := by
+  have hqB : Quiet rc0 { rcS with currentTemplate := none } := by
+    have := Quiet.setTemplate hq
+    rw [hct] at this
+    exact this
+  have hblB : rcS.blocks = [{ basePath := [['v']] }, {}] := by rw [hq.blocks, hb]
+  have hev : evaluate2 root (.relative [] ['t', 'h', 'i', 's']) { rcS with currentTemplate := none } out
+      = .ok (.context j [['v']]) { rcS with currentTemplate := none } out := by
+    exact C09.evaluate_this_in_path_scope root j { rcS with currentTemplate := none } out { basePath := [['v']] } [{}] hblB rfl rfl hsafe hj
+  have hel : renderElem reg root (fuel + 4) (.expr PlainText.thisHT) { rcS with currentTemplate := none } out
+      = indentAwareWrite (reg.escape j.render) { rcS with currentTemplate := none } out :=
+    expr_path_escapes_once reg root fuel PlainText.thisHT (.relative [] ['t', 'h', 'i', 's'])
+      _ out (.context j [['v']]) rfl rfl (by rw [hqB]; exact hl) hr (by rw [hqB]; exact hmc) (by rw [hqB]; exact hde) hev rfl
+  obtain ⟨rc2, out2, hw, hq2, hf2, ht2⟩ := indentAwareWrite_quiet rc0 hi (reg.escape j.render) _ out hqB hf
+  have hmA := quiet_modifyAux rc0 rcS (fun r => { r with currentTemplate := (PlainText.wtBody lc).name }) out hq hqB
+  have hq3 : Quiet rc0 { rc2 with currentTemplate := rcS.currentTemplate } := by
+    have := Quiet.setTemplate hq2
+    rw [← Quiet.template hq] at this
+    exact this
+  have hmB := quiet_modifyAux rc0 rc2 (fun r => { r with currentTemplate := rcS.currentTemplate }) out2 hq2 hq3
+  refine ⟨_, out2, ?_, hq3, hf2, ht2⟩
+  rw [show fuel + 6 = (fuel + 4) + 1 + 1 by omega]
+  simp only [renderTemplate, RM.bind_def, RM.bnd_apply, RM.get_apply, hmA]
+  simp only [PlainText.wtBody, Tmpl.empty, Tmpl.pushElement, Tmpl.name, Tmpl.elements, Tmpl.mapping, List.nil_append, renderElems,
+    RM.bind_def, RM.bnd_apply, RM.mapErr, hel, hw, RM.pure_def, RM.ret_apply, Option.isNone_none]
+  simp only [↓reduceIte]
+  exact hmB
+
+/-- the block element `{{#with v}}{{this}}{{/with}}` compiles to, on a truthy `data.v`: the escaped text of `data.v`, the pushed scope
+    popped again -/
+theorem with_this_block_writes (reg : Registry) (root j : Json) (rc0 : RC) (lc : Nat × Nat)
+    (hT : j.truthy false = true)
+    (hde : rc0.disableEscape = false)
+    (hlx : assocGet rc0.localHelpers ['t', 'h', 'i', 's'] = none) (hrx : assocGet reg.helpers ['t', 'h', 'i', 's'] = none)
+    (hb : rc0.blocks = [{}]) (hi : rc0.indentString = none) (hmc : rc0.modifiedCtx = none) (hct : rc0.currentTemplate = none)
+    (hl : assocGet rc0.localHelpers ['w', 'i', 't', 'h'] = none) (hr : assocGet reg.helpers ['w', 'i', 't', 'h'] = some .withH)
+    (hsafe : Spec.indexSafe root [['v']] = true) (hj : Spec.descend root [['v']] = some j) :
+    WritesTextK 9 reg root rc0 (.block (PlainText.wtHT (PlainText.wtBody lc))) (reg.escape j.render) := by
+  intro fuel0 rc out hq hf
+  rw [show fuel0 + 9 = (fuel0 + 3) + 6 by omega]
+  generalize hfu : fuel0 + 3 = fuel
+  have hblocks : rc.blocks = [{}] := by rw [hq.blocks, hb]
+  have hev : evaluate2 root (.relative [.named ['v']] ['v']) rc out = .ok (.context j [['v']]) rc out := by
+    have := C01.navigate_current_path_scope root {} [] ['v'] [] rc out (by simp [getInBlockParams, assocGet]) rfl (by simpa using hsafe)
+    simp only [C01.names, List.map_cons, List.map_nil] at this
+    simp only [evaluate2, RM.bind_def, RM.bnd_apply, RM.get_apply, hblocks, this, C01.blockValue, Spec.descend]
+    simp only [Option.bind]
+    have hj' : (Spec.step root ['v']).bind (fun v' => Spec.descend v' []) = some j := by simpa [Spec.descend] using hj
+    simp [Spec.descend] at hj' ⊢
+    rw [hj']
+  have hmc' : rc.modifiedCtx = none := by rw [hq]; exact hmc
+  have hl' : assocGet rc.localHelpers ['w', 'i', 't', 'h'] = none := by rw [hq]; exact hl
+  have hpath : Path.new ['v'] [.named ['v']] = .relative [.named ['v']] ['v'] := rfl
+  have hh : helperFromTemplate reg root (fuel + 4) (PlainText.wtHT (PlainText.wtBody lc)) rc out
+      = .ok { name := ['w', 'i', 't', 'h'], params := [⟨some ['v'], .context j [['v']]⟩], hash := [], template := some (PlainText.wtBody lc), inverse := none, blockParam := none, block := true } rc out := by
+    simp [helperFromTemplate, PlainText.wtHT, PlainText.wiOpen, HelperG.new, expandAsName, expandParams, expandParam, expandHash,
+      RM.bnd_apply, hmc', hpath, hev, Path.raw]
+  have hm1 := quiet_modifyAux rc0 rc (fun r => { r with contentProduced := false, indentBeforeWrite := rc.indentBeforeWrite || ((PlainText.wtHT (PlainText.wtBody lc)).indentBeforeWrite && r.trailingNewline) }) out hq (hq.flags _ _ _)
+  simp only [renderElem, renderHelper, RM.bind_def, RM.bnd_apply, hh, RM.get_apply, hl', hr, hm1]
+  have hibw : (PlainText.wtHT (PlainText.wtBody lc)).indentBeforeWrite = false := rfl
+  simp only [hibw, Bool.false_and, Bool.or_false]
+  have hqA : Quiet rc0 { rc with contentProduced := false } := hq.flags _ _ _
+  let rcA : RC := { rc with contentProduced := false }
+  have finish : ∀ (rc2 : RC) (out2 : Out) (txt : Str), Quiet rc0 rc2 → out2.failAt = none → out2.text = out.text ++ txt →
+      ∃ rc' out', RM.modifyAux (fun rc_1 : RC => if rc_1.contentProduced = true then { rc_1 with indentBeforeWrite := rc_1.trailingNewline } else { rc_1 with contentProduced := rc.contentProduced, indentBeforeWrite := rc.indentBeforeWrite }) rc2 out2 = .ok () rc' out'
+        ∧ Quiet rc0 rc' ∧ out'.failAt = none ∧ out'.text = out.text ++ txt := by
+    intro rc2 out2 txt hq2 hf2 ht2
+    have hqG : Quiet rc0 ((fun rc_1 : RC => if rc_1.contentProduced = true then { rc_1 with indentBeforeWrite := rc_1.trailingNewline } else { rc_1 with contentProduced := rc.contentProduced, indentBeforeWrite := rc.indentBeforeWrite }) rc2) := by
+      by_cases hcp : rc2.contentProduced = true
+      · simp only [hcp, ↓reduceIte]; exact Quiet.flags hq2 _ _ _
+      · simp only [hcp, ↓reduceIte]; exact Quiet.flags hq2 _ _ _
+    exact ⟨_, _, quiet_modifyAux rc0 _ _ out2 hq2 hqG, hqG, hf2, ht2⟩
+  have ht : j.truthy false = true := hT
+  let rcP : RC := { rcA with blocks := { basePath := [['v']] } :: rcA.blocks }
+  obtain ⟨rc2, out2, hbody, hq2, hf2, ht2⟩ := render_this_body_in_with reg root j rcP rcP out lc fuel0
+    (by show ({ basePath := [['v']] } : Block) :: rc.blocks = _; rw [hblocks])
+    (by show rc.indentString = none; rw [hq.indent]; exact hi) (by show rc.currentTemplate = none; rw [Quiet.template hq]; exact hct)
+    (by show rc.modifiedCtx = none; exact hmc') (by show rc.disableEscape = false; rw [hq]; exact hde)
+    (by show assocGet rc.localHelpers ['t', 'h', 'i', 's'] = none; rw [hq]; exact hlx) hrx hsafe hj (Quiet.refl _) hf
+  have hcall : callHelper reg root (fuel + 4) .withH { name := ['w', 'i', 't', 'h'], params := [⟨some ['v'], .context j [['v']]⟩], hash := [], template := some (PlainText.wtBody lc), inverse := none, blockParam := none, block := true } rcA out
+      = .ok () { rc2 with blocks := rc2.blocks.drop 1 } out2 := by
+    rw [show fuel + 4 = (fuel + 3) + 1 by omega]
+    simp only [callHelper, HelperKind.hasInner, Bool.false_eq_true, ↓reduceIte, List.getElem?_cons_zero, PJ.json, SJ.asJson, ht, PJ.contextPath,
+      SJ.contextPath, createBlock, HelperI.blockParam1, RM.withBlock, RM.bracket_apply]
+    rw [← hfu, show fuel0 + 3 + 3 = fuel0 + 6 by omega, hbody]
+  rw [hcall]
+  have hq4 : Quiet rc0 { rc2 with blocks := rc2.blocks.drop 1 } := by
+    have hrcA : Quiet rc0 rcA := hqA
+    unfold Quiet at hq2 hrcA ⊢
+    rw [hq2]
+    simp only [rcP, List.drop_succ_cons, List.drop_zero]
+    rw [hrcA]
+  exact finish _ out2 _ hq4 hf2 ht2
+
+
+
+/-- `{{#with v}}{{this}}{{/with}}` -/
+abbrev withThisSrc : Str := PlainText.wtSrc
+
+/-- **inside `{{#with v}}`, `this` is `data.v`** – at source level: for every text `L`, `R`, every truthy `data.v` (a string, a number,
+    an array, an object …) and every escape function, `L ++ {{#with v}}{{this}}{{/with}} ++ R` renders `L ++ escape(text of data.v) ++ R`:
+    the current context inside the block is the value the helper was given.  Through the regenerated grammar (the 13 pairs of the
+    block by kernel evaluation; `this` is a path without segments), compile2, the `with` helper and `navigate`
+    (`C09.evaluate_this_in_path_scope`). -/
+theorem this_in_with_is_the_with_value (r : Registry) (fs : FS) (L R : Str) (data j : Json)
+    (hdev : r.dev = false)
+    (hL : L = [] ∨ PlainText.TextBeforeTag L) (hR : PlainText.noOpen R)
+    (hwith : assocGet r.helpers ['w', 'i', 't', 'h'] = some .withH)
+    (hnohelper : assocGet r.helpers ['t', 'h', 'i', 's'] = none)
+    (hsafe : Spec.indexSafe data [['v']] = true) (hj : Spec.descend data [['v']] = some j) (hT : j.truthy false = true) :
+    r.renderTemplate fs (L ++ withThisSrc ++ R) data = .ok (L ++ r.escape j.render ++ R) := by
+  unfold Registry.renderTemplate Registry.renderTemplateToWrite Registry.renderTemplateWithContextToWrite
+    Registry.compileForRenderTemplate
+  obtain ⟨m, hcomp⟩ := PlainText.compile_text_wt_text L _ _ { preventIndent := r.preventIndent } hL (PlainText.textAfterTag_split R hR)
+  rw [← PlainText.split_ws R] at hcomp
+  rw [show withThisSrc = PlainText.wtSrc from rfl, hcomp]
+  simp only [Registry.renderResolved, hdev, Bool.not_false, ↓reduceIte]
+  generalize Pest.lineCol (L ++ PlainText.wtSrc ++ R) (L.length + 11) = lc
+  let txt : Str := r.escape j.render
+  let ets : List (Elem × Str) := (if L = [] then [] else [(.raw L, L)]) ++ [(.block (PlainText.wtHT (PlainText.wtBody lc)), txt)]
+    ++ (if R = [] then [] else [(.raw R, R)])
+  have hel : (PlainText.leftT L L).elements ++ [Elem.block (PlainText.wtHT (PlainText.wtBody lc))] ++ (if R = [] then [] else [Elem.raw R])
+      = ets.map (·.1) := by
+    simp only [ets]
+    by_cases hLe : L = [] <;> by_cases hRe : R = [] <;> simp [hLe, hRe, PlainText.leftT, Tmpl.empty, Tmpl.elements]
+  have htxt : (ets.map (·.2)).flatten = L ++ txt ++ R := by
+    simp only [ets]
+    by_cases hLe : L = [] <;> by_cases hRe : R = [] <;> simp [hLe, hRe]
+  rw [hel]
+  have hw : ∀ p ∈ ets, WritesTextK 9 r data { ({ rootTemplate := none } : RC) with currentTemplate := none } p.1 p.2 := by
+    intro p hp
+    simp only [ets, List.mem_append, List.mem_singleton] at hp
+    rcases hp with (hp | rfl) | hp
+    · split at hp
+      · simp at hp
+      · simp at hp; subst hp; exact (writes_raw r data _ rfl L).toK _ (by omega)
+    · exact with_this_block_writes r data j _ lc hT rfl rfl hnohelper rfl rfl rfl rfl rfl hwith hsafe hj
+    · split at hp
+      · simp at hp
+      · simp at hp; subst hp; exact (writes_raw r data _ rfl R).toK _ (by omega)
+  have hlen : ets.length + 9 + 6 ≤ renderFuel := by
+    have h1 : (if L = [] then [] else [((Elem.raw L, L) : Elem × Str)]).length ≤ 1 := by split <;> simp
+    have h2 : (if R = [] then [] else [((Elem.raw R, R) : Elem × Str)]).length ≤ 1 := by split <;> simp
+    simp only [ets, List.length_append, List.length_singleton]
+    have : renderFuel = 4000 := rfl
+    omega
+  have := render_writes_templateK 9 r data none ets m { rootTemplate := none } hlen hw
+  simp only [Tmpl.name] at this ⊢
+  rw [this, htxt]
+
 
 
 end Hbs.C01
